@@ -495,6 +495,13 @@ func (r *Resolvable) ResolveDeferBatch(rootData *Object, out io.Writer, outstand
 			shouldSkipIncremental = true
 		} else {
 			incrementalItems = scratch.Bytes()
+			if len(incrementalItems) == 0 && r.hasErrors() {
+				// Nothing deliverable was rendered although the pre-walk collected errors: a
+				// non-null field of the fragment was null or denied and took the (nullable,
+				// non-list) anchor object with it. The errors cannot ride in incremental[]
+				// then, so report them on the completed entry instead of dropping them.
+				shouldSkipIncremental = true
+			}
 		}
 	}
 
